@@ -1,5 +1,5 @@
 #!/bin/bash
-# mutest.sh <patch.diff> <property[,property...]> [-R]
+# mutest.sh <patch.diff> <property[,property...] | engine:<name>> [-R]
 # Applies a patch to a scratch copy of /repo (outside /repo and /verif), runs
 # the static checks for the given properties on the copy, prints the verdict
 # and removes the copy. -R applies the patch in reverse (used to re-introduce a
@@ -18,8 +18,16 @@ fi
 if ! (cd "$d/repo" && go build ./... 2>"$d/build.err"); then
   echo "MUTEST: mutant does not build"; head -5 "$d/build.err"; exit 4
 fi
-out=$(/verif/bin/calcsa -repo "$d/repo" -verif "$d/verif" -property "$props" 2>&1)
-rc=$?
-echo "$out" | sed "s#$d/repo/##g" | grep -v '^      ' | grep -v '^KNOWN-FINDING' | head -${MUTEST_LINES:-12}
+case "$props" in
+engine:*)
+  out=$(/verif/bin/calcsa -repo "$d/repo" -verif "$d/verif" -engine "${props#engine:}" 2>&1)
+  if echo "$out" | grep -q ': \(violated\|undecided\): '; then rc=1; else rc=0; fi
+  out=$(echo "$out" | grep ': \(violated\|undecided\): ')
+  ;;
+*)
+  out=$(/verif/bin/calcsa -repo "$d/repo" -verif "$d/verif" -property "$props" 2>&1); rc=$?
+  ;;
+esac
+echo "$out" | sed "s#$d/repo/##g" | grep -v '^      ' | grep -v '^KNOWN-FINDING' | cut -c1-${MUTEST_COLS:-300} | head -${MUTEST_LINES:-8}
 if [ $rc -eq 1 ]; then echo "MUTEST: DETECTED ($patch)"; else echo "MUTEST: MISSED rc=$rc ($patch)"; fi
 exit 0
